@@ -24,7 +24,8 @@ func init() {
 		Assumptions: []string{"Metastore.LoadLatest returns the newest record (C13)", "time.Now is the process clock"},
 		Tech:        "static analysis: guarded-by-condition (dominating branch facts) on SSA, boolean-disjunct structure, value provenance",
 		NeedU1:      true,
-		Rules:       []func(*Ctx){ruleC04LatestRevalidated, ruleC04LoaderRejectsInvalid, ruleC04ExpiryArithmeticExact, ruleC05PolicyDurationsVerbatim, ruleC04NewKeysStampedNow, ruleC05MergeIdentity, ruleC04FreshnessRenewal, ruleC04LatestMapMonotonic, ruleC05FreshnessWriters, ruleC05StaleMeansReload, ruleC13ConsistentReads, ruleC02SuccessIsStoreBool, ruleC01OldKeysAddressable},
+		NeedU2:      true,
+		Rules:       []func(*Ctx){ruleC04LatestRevalidated, ruleC04LoaderRejectsInvalid, ruleC04ExpiryArithmeticExact, ruleC05PolicyDurationsVerbatim, ruleC04NewKeysStampedNow, ruleC05MergeIdentity, ruleC04FreshnessRenewal, ruleC04LatestMapMonotonic, ruleC05FreshnessWriters, ruleC05StaleMeansReload, ruleC13ConsistentReads, ruleC02SuccessIsStoreBool, ruleC01OldKeysAddressable, ruleC04EntryStampedNow, ruleC05SidecarPolicyVerbatim},
 	})
 	register(&propSpec{
 		ID:            "C05",
@@ -39,7 +40,8 @@ func init() {
 		Assumptions: []string{"the loader passed to the cache re-reads the metastore (checked by C20.external-only-via-cache / C01 provenance rules)"},
 		Tech:        "static analysis: guarded-by-condition and must-pass-through on SSA over key_cache.go/envelope.go",
 		NeedU1:      true,
-		Rules:       []func(*Ctx){ruleC05StaleMeansReload, ruleC05ReloadRefreshes, ruleC05ReloadResultUsed, ruleC05PolicyDurationsVerbatim, ruleC13ProjectionCoversRecord, ruleC13RecordLiteralsComplete, ruleC01LatestLookupUsesMarker, ruleC05MergeIdentity, ruleC04LatestRevalidated, ruleC01NoValidityGateOnRead, ruleC08RefcountProtocol, ruleC04FreshnessRenewal, ruleC05FreshnessWriters, ruleC13FieldFidelity, ruleC15SetStoresValue, ruleC13ConsistentReads, ruleC04LatestMapMonotonic, ruleC13ReadsHitBackend, ruleC02SuccessIsStoreBool, ruleC02FreshKeyOnlyIfStored, ruleC04ExpiryArithmeticExact, ruleC13DecodedRecordComplete},
+		NeedU2:      true,
+		Rules:       []func(*Ctx){ruleC05StaleMeansReload, ruleC05ReloadRefreshes, ruleC05ReloadResultUsed, ruleC05PolicyDurationsVerbatim, ruleC13ProjectionCoversRecord, ruleC13RecordLiteralsComplete, ruleC01LatestLookupUsesMarker, ruleC05MergeIdentity, ruleC04LatestRevalidated, ruleC01NoValidityGateOnRead, ruleC08RefcountProtocol, ruleC04FreshnessRenewal, ruleC05FreshnessWriters, ruleC13FieldFidelity, ruleC15SetStoresValue, ruleC13ConsistentReads, ruleC04LatestMapMonotonic, ruleC13ReadsHitBackend, ruleC02SuccessIsStoreBool, ruleC02FreshKeyOnlyIfStored, ruleC04ExpiryArithmeticExact, ruleC13DecodedRecordComplete, ruleC05SidecarPolicyVerbatim},
 	})
 }
 
